@@ -33,26 +33,17 @@ def pmDefSpec (m : MessageDefinition) : List Nat :=
 /-- the translated `MarshalAppend` never panics and appends exactly `pmDefSpec m`, for EVERY definition and buffer -/
 theorem pm_def_marshal (m : MessageDefinition) (b : List Nat) :
     MessageDefinition.MarshalAppend m b = some (b ++ pmDefSpec m) := by
-  have hf : ∀ b0 : List Nat, forIn (Go.rangeI m.FieldDefinitions.length) b0 (fun i r => do
-      let b : List Nat := r
-      let b := (b ++ [((← Go.idxI m.FieldDefinitions i)).Num, ((← Go.idxI m.FieldDefinitions i)).Size, ((← Go.idxI m.FieldDefinitions i)).BaseType])
-      pure (ForInStep.yield b)) = some (b0 ++ m.FieldDefinitions.flatMap (fun f => [f.Num, f.Size, f.BaseType])) := by
-    intro b0
-    rw [forIn_rangeI_congr _ _ (fun f b => some (ForInStep.yield (b ++ [f.Num, f.Size, f.BaseType])))
-      (by intro k hk s; simp [idxI_natCast _ k hk])]
-    rw [forIn_some_yield, foldl_append_flatMap]
-  have hd : ∀ b0 : List Nat, forIn (Go.rangeI m.DeveloperFieldDefinitions.length) b0 (fun i r => do
-      let b : List Nat := r
-      let b := (b ++ [((← Go.idxI m.DeveloperFieldDefinitions i)).Num, ((← Go.idxI m.DeveloperFieldDefinitions i)).Size, ((← Go.idxI m.DeveloperFieldDefinitions i)).DeveloperDataIndex])
-      pure (ForInStep.yield b)) = some (b0 ++ m.DeveloperFieldDefinitions.flatMap (fun f => [f.Num, f.Size, f.DeveloperDataIndex])) := by
-    intro b0
-    rw [forIn_rangeI_congr _ _ (fun f b => some (ForInStep.yield (b ++ [f.Num, f.Size, f.DeveloperDataIndex])))
-      (by intro k hk s; simp [idxI_natCast _ k hk])]
-    rw [forIn_some_yield, foldl_append_flatMap]
   have hl : ∀ n : Nat, (((n : Int) % 2 ^ 8).toNat) = n % 256 := by intro n; omega
+  have hl' : ∀ n : Nat, (((n : Int) % 256).toNat) = n % 256 := by intro n; omega
   unfold MessageDefinition.MarshalAppend pmDefSpec
-  simp only [hf, hd, hl]
-  by_cases ha : m.Architecture = 0 <;> by_cases hh : m.Header &&& 32 = 32 <;> simp [ha, hh, hf, hd]
+  by_cases ha : m.Architecture = 0 <;> rcases and_32_cases m.Header with hh | hh <;>
+  ( simp [ha, hh, hl, hl', -List.append_assoc, -List.cons_append, -List.nil_append, -List.singleton_append]
+    go_loop m.FieldDefinitions (fun f b => some (ForInStep.yield (b ++ [f.Num, f.Size, f.BaseType])))
+    rw [forIn_some_yield, foldl_append_flatMap]
+    try simp only [Option.bind_eq_bind, Option.bind_some, Option.pure_def, pure_bind, bind_pure]
+    try (go_loop m.DeveloperFieldDefinitions (fun f b => some (ForInStep.yield (b ++ [f.Num, f.Size, f.DeveloperDataIndex])))
+         rw [forIn_some_yield, foldl_append_flatMap])
+    simp [ha, hh, hl, hl'] )
 
 /-- the `proto.MessageDefinition` that `newMessageDefinition` / `NewMessageDefinition` build for a message of the wire
 model: header `MesgDefinitionMask` (the translated constant), with the translated `mesgDef.Header |= DevDataMask` applied
@@ -114,14 +105,95 @@ theorem pm_data_header (b : List Nat) (hdr : Nat) (m : Fit.Wire.WMsg) :
 /-- `proto.Bool(v)`: the number stored is the model's (`Fit.Value.mkBool`: above 1 → `BoolInvalid` = 255) -/
 theorem pm_bool_clamp (v : Nat) : Fit.Value.mkBool v = .bool (Bool_clamp v).num ∧ (Bool_clamp v).num = Fit.Value.clampBool v := by
   unfold Fit.Value.mkBool Fit.Value.clampBool Bool_clamp
-  by_cases h : v > 1 <;> simp [h, id_run, Fit.Gen.boolInvalid] <;> exact ⟨rfl, rfl⟩
+  by_cases h : v > 1
+  · have h2 : 2 ≤ v := h
+    have h3 : ¬ v ≤ 1 := by omega
+    have h4 : ¬ v < 2 := by omega
+    simp [h, h2, h3, h4, id_run, Fit.Gen.boolInvalid] <;> exact ⟨rfl, rfl⟩
+  · have h2 : ¬ 2 ≤ v := by omega
+    have h3 : v ≤ 1 := by omega
+    have h4 : v < 2 := by omega
+    simp [h, h2, h3, h4, id_run, Fit.Gen.boolInvalid] <;> exact ⟨rfl, rfl⟩
 
 /-- `Value.MarshalAppend`, case `TypeBool`: one byte, `Fit.Value.boolByte` (above 1 → 255), and the function returns there -/
 theorem pm_bool_marshal (b : List Nat) (val : Nat) (hv : val < 256) :
     (Value_MarshalAppend_bool b val).ret = some (b ++ [Fit.Value.boolByte val]) := by
   unfold Value_MarshalAppend_bool Fit.Value.boolByte
   have e : val % 256 = val := Nat.mod_eq_of_lt hv
-  by_cases h : val > 1 <;> simp [h, e, id_run] <;> rfl
+  by_cases h : val > 1
+  · have h2 : 2 ≤ val := h
+    have h3 : ¬ val ≤ 1 := by omega
+    have h4 : ¬ val < 2 := by omega
+    simp [h, h2, h3, h4, e, id_run] <;> rfl
+  · have h2 : ¬ 2 ≤ val := by omega
+    have h3 : val ≤ 1 := by omega
+    have h4 : val < 2 := by omega
+    simp [h, h2, h3, h4, e, id_run] <;> rfl
+
+/-! ### Value.MarshalAppend: the fixed-width scalar cases and the bool array -/
+
+/-- the eight fixed-width scalar cases of `Value.MarshalAppend` (`binary.LittleEndian/BigEndian.AppendUintN(b, uintN(v.num))`
+chosen by `arch == LittleEndian`, then `return b, nil`) append `Fit.Value.enc w arch n` — the bytes `Fit.Value.marshal` gives
+for `.int16 n` … `.float64 n` — for EVERY `v.num`, byte order byte and buffer -/
+theorem pm_scalar_marshal (arch n : Nat) (b : List Nat) :
+    (Value_MarshalAppend_int16 arch b n).ret = some (b ++ Fit.Value.enc 2 arch n) ∧
+    (Value_MarshalAppend_uint16 arch b n).ret = some (b ++ Fit.Value.enc 2 arch n) ∧
+    (Value_MarshalAppend_int32 arch b n).ret = some (b ++ Fit.Value.enc 4 arch n) ∧
+    (Value_MarshalAppend_uint32 arch b n).ret = some (b ++ Fit.Value.enc 4 arch n) ∧
+    (Value_MarshalAppend_float32 arch b n).ret = some (b ++ Fit.Value.enc 4 arch n) ∧
+    (Value_MarshalAppend_int64 arch b n).ret = some (b ++ Fit.Value.enc 8 arch n) ∧
+    (Value_MarshalAppend_uint64 arch b n).ret = some (b ++ Fit.Value.enc 8 arch n) ∧
+    (Value_MarshalAppend_float64 arch b n).ret = some (b ++ Fit.Value.enc 8 arch n) := by
+  have e16 : Go.le16 (n % 2 ^ 16) = Fit.Value.leBytes 2 n := by
+    simp only [Go.le16, Fit.Value.leBytes, List.cons.injEq, and_true]; omega
+  have e32 : Go.le32 (n % 2 ^ 32) = Fit.Value.leBytes 4 n := by
+    simp only [Go.le32, Fit.Value.leBytes, List.cons.injEq, and_true]; omega
+  have e64 : Go.le64 n = Fit.Value.leBytes 8 n := by
+    simp only [Go.le64, Go.le32, Fit.Value.leBytes, List.cons_append, List.nil_append, List.cons.injEq, and_true]; omega
+  have r16 : Go.be16 (n % 2 ^ 16) = (Fit.Value.leBytes 2 n).reverse := by
+    rw [← e16]; simp [Go.le16, Go.be16]
+  have r32 : Go.be32 (n % 2 ^ 32) = (Fit.Value.leBytes 4 n).reverse := by
+    rw [← e32]; simp [Go.le32, Go.be32]
+  have r64 : Go.be64 n = (Fit.Value.leBytes 8 n).reverse := by
+    rw [← e64]; simp [Go.le64, Go.le32, Go.be64, Go.be32]
+  unfold Value_MarshalAppend_int16 Value_MarshalAppend_uint16 Value_MarshalAppend_int32 Value_MarshalAppend_uint32
+    Value_MarshalAppend_float32 Value_MarshalAppend_int64 Value_MarshalAppend_uint64 Value_MarshalAppend_float64 Fit.Value.enc
+    Fit.Gen.littleEndian
+  by_cases ha : arch = 0
+  · simp [ha, e16, e32, e64, id_run, -List.append_assoc] <;> exact ⟨rfl, rfl, rfl, rfl, rfl, rfl, rfl, rfl⟩
+  · simp [ha, r16, r32, r64, id_run, -List.append_assoc] <;> exact ⟨rfl, rfl, rfl, rfl, rfl, rfl, rfl, rfl⟩
+
+/-- `Value.MarshalAppend`, case `TypeSliceBool`: one byte per element, `Fit.Value.boolByte` (above 1 → 255); the loop does not
+panic and the function returns there — for every array of bytes and every buffer -/
+theorem pm_sliceBool_marshal (b vals : List Nat) (hv : ∀ x ∈ vals, x < 256) :
+    Value_MarshalAppend_sliceBool b vals =
+      some { b := b ++ vals.map Fit.Value.boolByte, ret := some (b ++ vals.map Fit.Value.boolByte) } := by
+  have hloop : forIn (Go.rangeI vals.length) b (fun i r => do
+      let b : List Nat := r
+      if (decide ((← Go.idxI vals i) > 1)) then
+        let b := (b ++ [255])
+        pure (ForInStep.yield b)
+      else
+        let b := (b ++ [(← Go.idxI vals i)])
+        pure (ForInStep.yield b)) = some (b ++ vals.map Fit.Value.boolByte) := by
+    rw [forIn_rangeI_congr _ _ (fun x b => some (ForInStep.yield (b ++ [if x > 1 then 255 else x])))
+      (by intro k hk s; by_cases h : vals[k] > 1 <;> simp [idxI_natCast _ k hk, h])]
+    rw [forIn_some_yield, foldl_append_flatMap]
+    congr 2
+    rw [List.flatMap_eq_foldl]
+    suffices H : ∀ acc : List Nat, List.foldl (fun acc a => acc ++ [if a > 1 then 255 else a]) acc vals = acc ++ vals.map Fit.Value.boolByte by
+      simpa using H []
+    induction vals with
+    | nil => intro acc; simp
+    | cons a l ih =>
+      intro acc
+      have ha : a < 256 := hv a (by simp)
+      have e : Fit.Value.boolByte a = if a > 1 then 255 else a := by
+        unfold Fit.Value.boolByte; rw [Nat.mod_eq_of_lt ha]
+      simp [ih (fun x hx => hv x (by simp [hx])), e]
+  unfold Value_MarshalAppend_sliceBool
+  simp only [hloop]
+  rfl
 
 /-- `UnmarshalValue` on a `typedef.Bool` array: the element appended for byte `i` is `Fit.Value.clampBool bs[i]`, and the
 index expression does not panic for an index of the loop -/
